@@ -419,6 +419,12 @@ class FuncEmitter:
         if op in ('and', 'or', 'xor'):
             c = {'and': '&', 'or': '|', 'xor': '^'}[op]
             return '((%s)(%s %s %s))' % (T, a, c, b)
+        if op in ('udiv', 'urem', 'sdiv', 'srem', 'mul') and ('i' + op) in self.ctx.uf_float and n <= 64:
+            # relational abstraction of integer multiply/divide (same rationale as for the float operations; mul is commutative)
+            if op != 'mul':
+                self.out.append('LL2C_CHECK(%s != 0, "ub:integer-divide-by-zero");' % b)
+            self.ctx.trusted.add('relational abstraction: integer %s as an uninterpreted function (sound for equalities between two runs)' % op)
+            return self.trunc_to('LL2C_UFI(%s, %d, (u64)%s, (u64)%s)' % (op, n, a, b), n)
         if op in ('udiv', 'urem'):
             c = '/' if op == 'udiv' else '%'
             self.out.append('LL2C_CHECK(%s != 0, "ub:integer-divide-by-zero");' % b)
